@@ -99,7 +99,7 @@ Lemma create_context_same c s txh svc provs cons inok capd capa timeout rep freq
 Proof. unfold create_context. intros H. frame H. Qed.
 
 Lemma exec_msg_same c s txh m s' :
-  exec_msg c s txh m = Okk s' ->
+  exec_msg_plain c s txh m = Okk s' ->
   match m with MRespond _ _ _ => True | _ => same_rq s s' end.
 Proof.
   intros H. destruct m; simpl in H; try exact I.
@@ -323,11 +323,14 @@ Proof.
   - intros rid Hin. specialize (I5 rid Hin). simpl in I5. lia.
 Qed.
 
-Lemma OutInv_apply c s st : OutInv true s -> OutInv true (apply c s st).
+Lemma OutInv_apply c s st : c_msvc c < 0 -> OutInv true s -> OutInv true (apply c s st).
 Proof.
-  intros Hinv. unfold apply. destruct (exec_step c s st) as [s'| |] eqn:E; try exact Hinv.
-  destruct st; simpl in E.
-  - destruct m; try (pose proof (exec_msg_same _ _ _ _ _ E) as Hs; simpl in Hs; eapply OutInv_same; [exact Hs|exact Hinv]).
+  intros Hm Hinv. unfold apply. destruct (exec_step c s st) as [s'| |] eqn:E; try exact Hinv.
+  destruct st; cbn [exec_step] in E.
+  9: { change (exec_msg_plain c s 0 (MBind svc prov depd depa pr qos true owner) = Okk s') in E.
+       pose proof (exec_msg_same _ _ _ _ _ E) as Hs. simpl in Hs. eapply OutInv_same; [exact Hs|exact Hinv]. }
+  all: simpl in E.
+  - rewrite (exec_msg_plain_eq _ _ _ _ Hm) in E. destruct m; try (pose proof (exec_msg_same _ _ _ _ _ E) as Hs; simpl in Hs; eapply OutInv_same; [exact Hs|exact Hinv]).
     simpl in E. eapply OutInv_respond; eassumption.
   - destruct (0 <=? dt); [|discriminate]. inversion E; subst. apply OutInv_end_block. exact Hinv.
   - inversion E; subst. eapply OutInv_same; [|exact Hinv]. repeat split.
@@ -345,11 +348,12 @@ Proof. constructor; simpl; try constructor; unfold outs; simpl; tauto. Qed.
 
 Theorem single_outcome_lemma :
   forall c steps h0 t0 l0,
+    c_msvc c < 0 ->
     let s := run c (init h0 t0 l0) steps in
     NoDup (map fst (g_out s))
     /\ (forall rid q, In rid (map fst (g_out s)) -> get rid (reqs s) = Some q -> q_active q = false).
 Proof.
-  intros c steps h0 t0 l0 s.
+  intros c steps h0 t0 l0 Hm s.
   assert (H : OutInv true s) by (subst s; apply run_inv; [intros; apply OutInv_apply; assumption|apply OutInv_init]).
   split; [exact (oi_nodup _ _ H)|exact (oi_inactive _ _ H)].
 Qed.
@@ -626,7 +630,7 @@ Proof.
   split; [|split; reflexivity]. simpl. eapply send_all_keeps_dep; [exact Es|discriminate|unfold DEP; lia].
 Qed.
 
-Lemma DepInv_exec_msg c s txh m s' : exec_msg c s txh m = Okk s' -> DepInv s -> DepInv s'.
+Lemma DepInv_exec_msg_plain c s txh m s' : exec_msg_plain c s txh m = Okk s' -> DepInv s -> DepInv s'.
 Proof.
   intros H Hinv. destruct m; simpl in H.
   - unfold define in H. repeat dme H. inversion H; subst. eapply (DepInv_same s); [repeat split|exact (di_ctx _ Hinv)|exact Hinv].
@@ -652,6 +656,40 @@ Proof.
   - unfold msg_ctl in H. repeat dme H. eapply DepInv_kill; eassumption.
   - eapply DepInv_update_context; eassumption.
   - eapply DepInv_withdraw; eassumption.
+Qed.
+
+(** a call to a module-served service *)
+Lemma DepInv_call_module c s txh svc provs cons inok capd capa timeout rep freq total s' :
+  call_module c s txh svc provs cons inok capd capa timeout rep freq total = Okk s' -> DepInv s -> DepInv s'.
+Proof.
+  unfold call_module. intros H Hinv.
+  destruct (validate_request provs cons inok capa timeout rep freq total) eqn:Ev; [|discriminate].
+  cbv beta iota zeta delta [negb] in H.
+  destruct (create_context c s txh svc [c_mprov c] cons inok capd capa 1 false 0 0 0 0 false) as [[s1 id]|] eqn:E1; [|discriminate].
+  assert (Hc : 0 <= cons) by (unfold validate_request in Ev; zb; assumption).
+  pose proof (create_context_dep _ _ _ _ _ _ _ _ _ _ _ _ _ _ _ _ _ _ E1 Hc Hinv) as D1.
+  destruct (get id (ctxs s1)) as [x|] eqn:Ex; [|discriminate].
+  destruct (filter_provs s1 x (x_provs x)) as [[|p0 ps]|]; try discriminate.
+  destruct (debit_all (led s1) (x_cons x) (total_fees s1 x [c_mprov c])) as [l|] eqn:Ed; [|discriminate].
+  assert (Hx : 0 <= x_cons x) by (eapply (di_ctx _ D1); exact Ex).
+  set (s2 := initiate_ms (with_led s1 (credit_all l REQ (total_fees s1 x [c_mprov c]))) id x [c_mprov c]) in *.
+  assert (D2 : DepInv s2).
+  { eapply (DepInv_same s1); [| |exact D1].
+    - split; [|split; reflexivity]. simpl.
+      destruct (debit_all_bal _ _ _ _ Ed) as (_ & B2). destruct (credit_all_bal (total_fees s1 x [c_mprov c]) l REQ) as (_ & C2).
+      rewrite C2 by discriminate. apply B2. unfold DEP. lia.
+    - simpl. apply ctxs_ok_set; [exact (di_ctx _ D1)|simpl; exact Hx]. }
+  destruct (respond c s2 (id, x_batch x + 1, height s, 0) (c_mprov c) 1) as [s3| |] eqn:Er; try discriminate.
+  pose proof (DepInv_respond _ _ _ _ _ _ Er D2) as D3. inversion H; subst s'.
+  eapply (DepInv_same s3); [repeat split| |exact D3]. simpl. apply ctxs_ok_set; [exact (di_ctx _ D3)|simpl; exact Hx].
+Qed.
+
+Lemma DepInv_exec_msg c s txh m s' : exec_msg c s txh m = Okk s' -> DepInv s -> DepInv s'.
+Proof.
+  intros H Hinv. destruct m; cbn [exec_msg] in H; try (eapply DepInv_exec_msg_plain; eassumption).
+  - destruct (module_served c svc); [discriminate|]. eapply DepInv_bind; eassumption.
+  - destruct (module_served c svc); [eapply DepInv_call_module; eassumption|].
+    eapply (DepInv_exec_msg_plain c s txh (MCall svc provs cons inok capd capa timeout rep freq total)); eassumption.
 Qed.
 
 Lemma DepInv_slash c s svc prov : DepInv s -> DepInv (slash c s svc prov).
@@ -775,6 +813,7 @@ Proof.
   - eapply DepInv_pause; eassumption.
   - eapply DepInv_start; eassumption.
   - eapply DepInv_kill; eassumption.
+  - eapply DepInv_bind; eassumption.
 Qed.
 
 Lemma DepInv_init h0 t0 l0 : bal l0 DEP BASE = 0 -> DepInv (init h0 t0 l0).
